@@ -253,7 +253,7 @@ class Precondition:
         for condition in new_expressions:
             if condition.root.value == "=":
                 simplified_equation = simplify_equality(
-                    condition.to_mathematical()[1:-1]
+                    condition.to_mathematical()[1:-1], decimal_digits=decimal_digits
                 )
                 if simplified_equation:
                     simplified_conditions.append(simplified_equation)
